@@ -233,8 +233,22 @@ def entails(st, c):
     """pc (its quantifier-free part) => c ?   (sound under-approximation of entailment)"""
     solver = z3.Solver()
     solver.set("timeout", 250)
+    skipped = False
     for h in st.pc:
         if _qf(h):
+            solver.add(h)
+        else:
+            skipped = True
+    solver.add(z3.Not(c))
+    if solver.check() == z3.unsat:
+        return True
+    if not skipped:
+        return False
+    # second attempt with the quantified hypotheses as well (bounds of index arrays usually come from them)
+    solver = z3.Solver()
+    solver.set("timeout", 500)
+    for h in st.pc:
+        if len(h.sexpr()) < 3000:
             solver.add(h)
     solver.add(z3.Not(c))
     return solver.check() == z3.unsat
